@@ -22,13 +22,6 @@ pub open spec fn phys_DistanceUnit(u: DistanceUnit) -> real { match u {   // met
 pub open spec fn phys_WeightUnit(u: WeightUnit) -> real { match u {       // kilograms (short ton = 2000 lb)
     WeightUnit::Pounds => 0.45359237real, WeightUnit::Tons => 907.18474real, WeightUnit::Kg => 1real } }
 """
-PHYS_LEMMA = """
-pub proof fn %(E)s_physical(a: %(E)s, b: %(E)s, v: real)
-    ensures v >= 0real ==> 0.999real * (v * phys_%(E)s(a)) <= conv_%(E)s(a, b, v) * phys_%(E)s(b) <= 1.001real * (v * phys_%(E)s(a)),
-            v <= 0real ==> 1.001real * (v * phys_%(E)s(a)) <= conv_%(E)s(a, b, v) * phys_%(E)s(b) <= 0.999real * (v * phys_%(E)s(a)),
-{ %(SPLIT)s }
-"""
-
 SHIMS = """
 use std::collections::{HashMap, HashSet};
 #[derive(Copy, Clone, Eq, Hash)] pub struct EdgeId(pub usize);
@@ -260,7 +253,8 @@ def build(x):
     x.note("R3", "trait impl methods `impl FrontierModel for X { fn valid_frontier }` written as inherent `pub fn` of X; Arc<..>/dyn removed in the shim structs")
     parts.append(PHYS)
     for enum in ("DistanceUnit", "WeightUnit"):
-        parts.append(PHYS_LEMMA % dict(E=enum, SPLIT=fam[enum][3]))
+        import c09_units as C9
+        parts.append(C9.PHYS_LEMMA % C9.lemma_args(enum, G.enum_variants(fam[enum][0])))
     parts.append(LEMMAS)
     parts.append("""
 // vacuity guard: MUST FAIL
